@@ -486,6 +486,34 @@ func runC08(c *core.Ctx) {
 				okFlush = false
 				c.Fail("flush", name, sel.Pos(), "on cancellation the queued backlog is not flushed to the receive side")
 			}
+			// after cancellation the pump leaves: no way back into the main loop (it would spin on the closed Done
+			// channel and never close the receive side)
+			{
+				seen := map[*ssa.BasicBlock]bool{}
+				var back func(q *ir.Path) bool
+				back = func(q *ir.Path) bool {
+					if q.To == nil {
+						return false
+					}
+					if q.To == mainH {
+						return true
+					}
+					if seen[q.To] {
+						return false
+					}
+					seen[q.To] = true
+					for _, r := range g.An.Segs[q.To] {
+						if r.To != q.To && back(r) {
+							return true
+						}
+					}
+					return false
+				}
+				if back(p) {
+					okSel = false
+					c.Fail("pump-select", name, sel.Pos(), "after <-ctx.Done() the pump returns to its main loop instead of leaving: it spins on the cancelled context and never closes the receive side")
+				}
+			}
 		}
 	}
 	if nRecv == 0 || nSend == 0 || nDone == 0 {
